@@ -108,13 +108,15 @@ def step (limit : Nat) (st : St) (raw : Str) : St :=
     | none => ⟨st.done, some ⟨[], t⟩, st.amp⟩
   | .data cont ws c =>
     let a := stripAmp ws
+    -- a line without data words (only a `$` comment) does not interrupt an `&` continuation
+    let amp' := if ws.isEmpty then st.amp else a.2
     match st.cur with
     | some i =>
       if cont || st.amp || i.words.isEmpty then
         -- continues the open input (an open input without words holds only leading comments)
-        ⟨st.done, some ⟨i.words ++ a.1, i.comment ++ c⟩, a.2⟩
-      else ⟨i :: st.done, some ⟨a.1, c⟩, a.2⟩
-    | none => ⟨st.done, some ⟨a.1, c⟩, a.2⟩
+        ⟨st.done, some ⟨i.words ++ a.1, i.comment ++ c⟩, amp'⟩
+      else ⟨i :: st.done, some ⟨a.1, c⟩, amp'⟩
+    | none => ⟨st.done, some ⟨a.1, c⟩, amp'⟩
 
 def finish (st : St) : List Input :=
   (match st.cur with | some i => i :: st.done | none => st.done).reverse
